@@ -76,6 +76,11 @@ func NewWorker(id int, prog *ssa.Program, hpkg *ssa.Package, cfg *Config) (*Work
 		s.shadow = sh
 	}
 	w.solver = s
+	if cfg.SmtLog != "" && id == 0 {
+		if f, err := os.Create(cfg.SmtLog); err == nil {
+			s.SetLog(f)
+		}
+	}
 	if rt := prog.ImportedPackage("runtime"); rt != nil {
 		if t := rt.Type("errorString"); t != nil {
 			w.runtimeErrT = t.Type()
